@@ -571,6 +571,49 @@ pub fn next_action(wd: &World, rng: &mut Rng) -> Option<Action> {
 			forced_tick = Some(*n);
 		}
 	}
+	// recipe (C03): a multi-part payment whose parts leave through two different peers, sent while
+	// one first-hop channel persists asynchronously (its part answers MonitorUpdateInProgress) and
+	// the other first-hop peer is disconnected (its part is refused on the spot). Chained on a
+	// randomly drawn AsyncOn: AsyncOn -> Disconnect -> Send.
+	let tl = wd.trace.len();
+	if let Some(Action::AsyncOn { n: an, chan }) = wd.trace.last() {
+		let (an, chan) = (*an, *chan);
+		let p = if wd.chans[chan].a == an { wd.chans[chan].b } else { wd.chans[chan].a };
+		let other: Vec<usize> = chans_of(wd, an)
+			.into_iter()
+			.map(|(_, q)| q)
+			.filter(|q| *q != p && wd.nodes[*q].live.is_some() && wd.is_conn(an, *q) && wd.is_conn(*q, an))
+			.filter(|q| chans_of(wd, p).iter().any(|(_, x)| x == q))
+			.collect();
+		if let Some(q) = other.first() {
+			if wd.nodes[an].live.is_some() && wd.pays.len() < cfg.max_payments && rng.chance(1, 2) {
+				return Some(Action::Disconnect { a: an.min(*q), b: an.max(*q), side: 0 });
+			}
+		}
+	}
+	if tl >= 2 {
+		if let (Action::AsyncOn { n: an, chan }, Action::Disconnect { a, b, .. }) = (&wd.trace[tl - 2], &wd.trace[tl - 1]) {
+			let (an, chan) = (*an, *chan);
+			if (*a == an || *b == an) && wd.nodes[an].live.is_some() && wd.pays.len() < cfg.max_payments {
+				let q = if *a == an { *b } else { *a };
+				let p = if wd.chans[chan].a == an { wd.chans[chan].b } else { wd.chans[chan].a };
+				let direct_q = chans_of(wd, an).into_iter().find(|(_, x)| *x == q).map(|(c, _)| c);
+				let pq = chans_of(wd, p).into_iter().find(|(_, x)| *x == q).map(|(c, _)| c);
+				if let (Some(cq), Some(cpq), true) = (direct_q, pq, p != q && wd.nodes[p].live.is_some() && wd.nodes[q].live.is_some()) {
+					let amt = rng.range(20_000_000, 60_000_000);
+					let a2 = amt / 2;
+					// to the disconnected peer: [async channel, P->Q] + [direct]; or to the other
+					// peer: [async channel] + [direct to Q, Q->P]
+					let (to, paths) = if rng.coin() {
+						(q, vec![vec![chan, cpq], vec![cq]])
+					} else {
+						(p, vec![vec![chan], vec![cq, cpq]])
+					};
+					return Some(Action::Send { from: an, to, paths, amts: vec![amt - a2, a2], fee_delta_msat: 0, cltv_delta_adj: 0, flaw: 0 });
+				}
+			}
+		}
+	}
 	let pick_live = |rng: &mut Rng| *rng.pick(&live);
 	Some(match kind {
 		"Pump" => Action::Pump { n: pick_live(rng) },
